@@ -170,6 +170,48 @@ theorem C11_source_suite_init_none (X : Ext) (d : Bool) :
 theorem C11_suite_obj_of_dict (s : Suite) : objOfDict (suiteDict s) = .ok (suiteObj s) := by
   simp [objOfDict, objOfDict.go, suiteDict, suiteObj, Res.map, Res.bind]
 
+/-- the accessors `passed`, `failed`, `skipped`, `domain_equality_check` return the stored lists / check. -/
+theorem C11_source_suite_accessors (X : Ext) (s : Suite) :
+    Gen.c11oSuitePassedSrc.run X [suiteObj s] = .ok (.list (s.passed.map cmpObj)) ∧
+    Gen.c11oSuiteFailedSrc.run X [suiteObj s] = .ok (.list (s.failed.map cmpObj)) ∧
+    Gen.c11oSuiteSkippedSrc.run X [suiteObj s] = .ok (.list (s.skipped.map cmpObj)) ∧
+    Gen.c11oSuiteDomainCheckSrc.run X [suiteObj s] = .ok (predResultVal s.domainEq) := by
+  refine ⟨?_, ?_, ?_, ?_⟩ <;>
+    simp only [Gen.c11oSuitePassedSrc, Gen.c11oSuiteFailedSrc, Gen.c11oSuiteSkippedSrc, Gen.c11oSuiteDomainCheckSrc,
+      suiteObj] <;> pylite_eval
+
+/-- `num_passed`, `num_failed`, `num_skipped` are the lengths of the three lists, `__len__` their sum (= the number
+    of entries `__iter__` yields). -/
+theorem C11_source_suite_counts (X : Ext) (s : Suite) :
+    Gen.c11oSuiteNumPassedSrc.run X [suiteObj s] = .ok (.int s.passed.length) ∧
+    Gen.c11oSuiteNumFailedSrc.run X [suiteObj s] = .ok (.int s.failed.length) ∧
+    Gen.c11oSuiteNumSkippedSrc.run X [suiteObj s] = .ok (.int s.skipped.length) ∧
+    Gen.c11oSuiteLenSrc.run X [suiteObj s] = .ok (.int s.iter.length) := by
+  refine ⟨?_, ?_, ?_, ?_⟩ <;>
+    simp only [Gen.c11oSuiteNumPassedSrc, Gen.c11oSuiteNumFailedSrc, Gen.c11oSuiteNumSkippedSrc, Gen.c11oSuiteLenSrc,
+      suiteObj, Suite.iter] <;> pylite_eval
+  omega
+
+/-- `__iter__` chains failed, passed, skipped — the model's `Suite.iter` (`chain` = concatenation, `iter` = identity
+    on the presented lists). -/
+theorem C11_source_suite_iter (X : Ext)
+    (hchain : ∀ a b c, X "chain" [.list a, .list b, .list c] = .ok (.list (a ++ b ++ c)))
+    (hiter : ∀ v, X "iter" [v] = .ok v) (s : Suite) :
+    Gen.c11oSuiteIterSrc.run X [suiteObj s] = .ok (.list (s.iter.map cmpObj)) := by
+  simp only [Gen.c11oSuiteIterSrc, suiteObj, Suite.iter]
+  pylite_eval [hchain, hiter]
+
+/-- the verdict: `FieldComparisonSuite.__bool__` (translated in phase 2, `Gen.c11FcSuiteBoolSrc`) on the object the
+    constructor builds is the model's `Suite.bool`. -/
+theorem C11_source_suite_obj_bool (s : Suite) :
+    Gen.c11FcSuiteBoolSrc.run noExt [suiteObj s] = .ok (.bool s.bool) := by
+  obtain ⟨d, p, f, k⟩ := s
+  cases d
+  · rfl
+  · simp only [Gen.c11FcSuiteBoolSrc, suiteObj, predResultVal, Suite.bool]
+    pylite_eval
+    cases f <;> simp <;> omega
+
 /-! ### `FieldDataComparator.__call__` -/
 
 /-- the list handed to the suite constructor is the model's `comparisons` -/
@@ -236,5 +278,12 @@ theorem C11_source_comparator_call {dS dR : Val} {src ref : List Fld} {domainEq 
     orch_eval [hts, hsv, htc, hcv, comparatorVal, fdVal, hdom, predResultVal, hfind, hfm, hcm, hms, hmr, hfl]
     rw [C11_comparisons_val, hs1]
     simp [comparatorCall]
+
+/-- the VERDICT of a comparison: the truth value of the suite `__call__` returns is the model's verdict. -/
+theorem C11_source_comparator_verdict (sel : Nat → Bool) (domainEq : Bool) (pred : Fld → Fld → Outcome)
+    (src ref : List Fld) :
+    Gen.c11FcSuiteBoolSrc.run noExt [suiteObj (comparatorCall sel domainEq pred src ref).suite] =
+      .ok (.bool (comparatorCall sel domainEq pred src ref).suite.bool) :=
+  C11_source_suite_obj_bool _
 
 end Fc
